@@ -8,7 +8,7 @@ import types
 import z3
 
 from pyvc import source
-from pyvc.core import PathEnd, Infeasible, Undecided
+from pyvc.core import PathEnd, Infeasible, Undecided, Restart
 from pyvc.values import (Sym, Obj, VList, VDict, VSet, SList, SSet, SMap,
                          Closure, BoundMethod, Native, ExcVal, Opaque,
                          StrSort, sort_of, str_const)
@@ -79,6 +79,7 @@ class LoopSpec(object):
 
 
 _CONCRETE_REF_BASE = 1000000000
+AUTO_FRAMES = {}      # (qualname, loop ordinal) -> (tables, fields) learnt
 
 
 class Interp(object):
@@ -111,7 +112,8 @@ class Interp(object):
         name = self.ex.fresh_name(base)
         if isinstance(ty, tuple) and ty[0] == 'obj':
             v = Obj(ty[1], z3.Int(name))
-            self.ex.assume(z3.And(v.ref >= 0, v.ref < _CONCRETE_REF_BASE))
+            # an existing object: symbolic (< base) or allocated so far
+            self.ex.assume(z3.And(v.ref >= 0, v.ref <= self.next_ref))
         elif isinstance(ty, tuple) and ty[0] == 'tuple':
             return from_term(z3.Const(name, sort_of(ty)), ty)
         else:
@@ -142,9 +144,17 @@ class Interp(object):
         name = self.ex.fresh_name(base)
         dom = z3.Const(name + '.dom', z3.ArraySort(sort_of(kty), z3.BoolSort()))
         val = z3.Const(name + '.val', z3.ArraySort(sort_of(kty), sort_of(vty)))
+        if isinstance(vty, tuple) and vty[0] == 'obj':
+            kk = z3.Const('kk!' + name, sort_of(kty))
+            self.ex.hyp(z3.ForAll([kk], z3.And(val[kk] >= 0,
+                                               val[kk] <= self.next_ref),
+                                  patterns=[val[kk]]))
         return SMap(dom, val, kty, vty, default, name)
 
     def raise_(self, cls, *args, **fields):
+        hook = self.registry.get('exc_fields')
+        if hook is not None:
+            fields = hook(cls, args, fields)
         raise PyRaise(ExcVal(cls, args, fields))
 
     def undecided(self, msg, node=None):
@@ -193,6 +203,89 @@ class Interp(object):
         key = self._arr(cls, field, spec)
         return self.heap_none[key]
 
+    # collection-valued fields: the heap stores a collection id; the
+    # contents are given by global functions of the id
+    def coll_fns(self, ty):
+        if ty[0] == 'list':
+            es = sort_of(ty[1])
+            return (z3.Function('coll_len', z3.IntSort(), z3.IntSort()),
+                    z3.Function('coll_list_%s' % es.name(), z3.IntSort(),
+                                z3.ArraySort(z3.IntSort(), es)))
+        if ty[0] == 'set':
+            es = sort_of(ty[1])
+            return (z3.Function('coll_set_%s' % es.name(), z3.IntSort(),
+                                z3.ArraySort(es, z3.BoolSort())),)
+        ks, vs = sort_of(ty[1]), sort_of(ty[2])
+        return (z3.Function('coll_dom_%s' % ks.name(), z3.IntSort(),
+                            z3.ArraySort(ks, z3.BoolSort())),
+                z3.Function('coll_val_%s_%s' % (ks.name(), vs.name()),
+                            z3.IntSort(), z3.ArraySort(ks, vs)))
+
+    def coll_from_id(self, cid, ty):
+        fns = self.coll_fns(ty)
+        nm = 'coll'
+        if ty[0] == 'list':
+            self.ex.assume(fns[0](cid) >= 0) if self.ex.qdepth == 0 else None
+            v = SList(fns[0](cid), fns[1](cid), ty[1], nm)
+        elif ty[0] == 'set':
+            v = SSet(fns[0](cid), ty[1], None, nm)
+        else:
+            v = SMap(fns[0](cid), fns[1](cid), ty[1], ty[2], None, nm)
+        v.cid = cid
+        return v
+
+    def coll_to_id(self, v, ty):
+        cid = getattr(v, 'cid', None)
+        fns = self.coll_fns(ty)
+        if cid is not None:
+            # still the same contents?  (views are not written through)
+            same = (v.len.eq(fns[0](cid)) and v.arr.eq(fns[1](cid))) \
+                if ty[0] == 'list' else \
+                (v.arr.eq(fns[0](cid)) if ty[0] == 'set' else
+                 (v.dom.eq(fns[0](cid)) and v.val.eq(fns[1](cid))))
+            if same:
+                return cid
+        cid = z3.Int(self.ex.fresh_name('cid'))
+        if ty[0] == 'list':
+            if isinstance(v, VList):
+                v = self.vlist_to_slist(v, ty[1])
+            self.ex.assume(z3.And(fns[0](cid) == v.len, fns[1](cid) == v.arr))
+        elif ty[0] == 'set':
+            v = self.as_sset(v, ty[1])
+            self.ex.assume(fns[0](cid) == v.arr)
+        else:
+            if isinstance(v, VDict):
+                v = self.vdict_to_smap(v, ty[1], ty[2])
+            self.ex.assume(z3.And(fns[0](cid) == v.dom, fns[1](cid) == v.val))
+        return cid
+
+    def vlist_to_slist(self, v, ety):
+        name = self.ex.fresh_name('lst')
+        arr = z3.Const(name + '.arr', z3.ArraySort(z3.IntSort(), sort_of(ety)))
+        for i, x in enumerate(v.items):
+            arr = z3.Store(arr, i, self.term_of_value(x, ety))
+        return SList(z3.IntVal(len(v.items)), arr, ety, name)
+
+    def vdict_to_smap(self, v, kty, vty):
+        name = self.ex.fresh_name('dct')
+        dom = z3.K(sort_of(kty), z3.BoolVal(False))
+        val = z3.Const(name + '.val', z3.ArraySort(sort_of(kty), sort_of(vty)))
+        for k, x in v.items.items():
+            kt = to_term(k, kty)
+            dom = z3.Store(dom, kt, z3.BoolVal(True))
+            val = z3.Store(val, kt, self.term_of_value(x, vty))
+        return SMap(dom, val, kty, vty, None, name)
+
+    def term_of_value(self, x, ty):
+        if isinstance(ty, tuple) and ty[0] in ('list', 'set', 'map'):
+            return self.coll_to_id(x, ty)
+        return to_term(x, ty)
+
+    def value_of_term(self, t, ty):
+        if isinstance(ty, tuple) and ty[0] in ('list', 'set', 'map'):
+            return self.coll_from_id(t, ty)
+        return from_term(t, ty)
+
     def read_field(self, obj, field):
         if z3.is_int_value(obj.ref):
             k = (obj.ref.as_long(), field)
@@ -205,7 +298,7 @@ class Interp(object):
             self.undecided('field %s.%s has no declared type' % (
                 getattr(obj.cls, '__name__', obj.cls), field))
         key = self._arr(obj.cls, field, spec)
-        v = from_term(z3.Select(self.heap[key], obj.ref), spec.ty)
+        v = self.value_of_term(z3.Select(self.heap[key], obj.ref), spec.ty)
         if spec.nullable:
             nn = z3.simplify(z3.Select(self.heap_none[key], obj.ref))
             if z3.is_true(nn):
@@ -213,6 +306,9 @@ class Interp(object):
             if not z3.is_false(nn):
                 if isinstance(v, (Sym, Obj)):
                     v.none = nn
+                elif isinstance(v, (SList, SSet, SMap)):
+                    if self.ex.branch(nn):
+                        return None
                 elif isinstance(v, tuple):
                     self.undecided('nullable tuple field')
                 else:
@@ -220,7 +316,10 @@ class Interp(object):
         return v
 
     def write_field(self, obj, field, value):
-        self.written_fields.add((getattr(obj.cls, '__name__', obj.cls), field))
+        if not (z3.is_int_value(obj.ref) and
+                obj.ref.as_long() > getattr(self, '_loop_alloc_mark', 1 << 62)):
+            self.written_fields.add((getattr(obj.cls, '__name__', obj.cls),
+                                     field))
         spec = self.field_spec(obj.cls, field)
         storable = spec is not None and self._storable(value, spec)
         if not storable:
@@ -244,7 +343,7 @@ class Interp(object):
                                            ops.z3bool(nf))
         if value is not None:
             self.heap[key] = z3.Store(self.heap[key], obj.ref,
-                                      to_term(value, spec.ty))
+                                      self.term_of_value(value, spec.ty))
 
     def _storable(self, value, spec):
         if value is None:
@@ -252,6 +351,15 @@ class Interp(object):
         nf = none_flag(value)
         if not (isinstance(nf, bool) and not nf) and not spec.nullable:
             return False
+        if isinstance(spec.ty, tuple) and spec.ty[0] in ('list', 'set', 'map'):
+            if spec.ty[0] == 'list':
+                return isinstance(value, SList) and value.ety == spec.ty[1] or \
+                    (isinstance(value, VList) and (not value.items or all(
+                        self._elem_ok(x, spec.ty[1]) for x in value.items)))
+            if spec.ty[0] == 'set':
+                return isinstance(value, (SSet, VSet))
+            return isinstance(value, SMap) or (isinstance(value, VDict) and
+                                               not value.default)
         try:
             vt = ty_of(value)
         except Undecided:
@@ -264,6 +372,16 @@ class Interp(object):
                 isinstance(vt, tuple) and vt[0] == 'obj':
             return True
         return False
+
+    def _elem_ok(self, x, ety):
+        try:
+            if isinstance(ety, tuple) and ety[0] in ('list', 'set', 'map'):
+                return isinstance(x, (SList, SSet, SMap, VList, VSet, VDict))
+            t = ty_of(x)
+            return t == ety or (isinstance(t, tuple) and isinstance(ety, tuple)
+                                and t[0] == ety[0] == 'obj')
+        except Undecided:
+            return False
 
     def alloc(self, cls):
         self.next_ref += 1
@@ -413,7 +531,15 @@ class Interp(object):
             kv = self.eval(k, frame)
             vv = self.eval(v, frame)
             if not is_concrete(kv):
-                self.undecided('dict literal with symbolic key', node)
+                if len(node.keys) != 1:
+                    self.undecided('dict literal mixing symbolic keys', node)
+                kty, vty = ty_of(kv), ty_of(vv)
+                m = SMap(z3.Store(z3.K(sort_of(kty), z3.BoolVal(False)),
+                                  to_term(kv, kty), z3.BoolVal(True)),
+                         z3.Store(z3.K(sort_of(kty), to_term(vv, vty)),
+                                  to_term(kv, kty), to_term(vv, vty)),
+                         kty, vty, None, self.ex.fresh_name('dictlit'))
+                return m
             d.items[kv] = vv
         return d
 
@@ -606,7 +732,10 @@ class Interp(object):
                 self.raise_(TypeError)
         if isinstance(op, ast.Mod) and isinstance(a, (str, Sym)) and \
                 (isinstance(a, str) or a.ty == 'str'):
-            return self.fresh('fmt', 'str')      # string formatting: opaque
+            r = self.fresh('fmt', 'str')         # string formatting: opaque
+            self.ghost.setdefault('fmt_provenance', {})[r.t.sexpr()] = \
+                list(b) if isinstance(b, tuple) else [b]
+            return r
         if isinstance(op, ast.Add) and (
                 (isinstance(a, str) or (isinstance(a, Sym) and a.ty == 'str'))):
             return self.fresh('concat', 'str')
@@ -853,6 +982,9 @@ class Interp(object):
 
     def getitem(self, v, k, node=None):
         if isinstance(v, VDict):
+            for sk, sv in reversed(getattr(v, 'sym_items', None) or []):
+                if self.ex.branch(ops.z3bool(self.truth_term(self._b(self.eq(k, sk))))):
+                    return sv
             if is_concrete(k):
                 if k in v.items:
                     pres = getattr(v, 'present', None)
@@ -869,6 +1001,12 @@ class Interp(object):
             for ck, cv in v.items.items():
                 if self.ex.branch(ops.z3bool(self.truth_term(self._b(self.eq(k, ck))))):
                     return cv
+            if v.default is not None:
+                # defaultdict with a symbolic key: the entry is created but
+                # cannot be kept in a concrete-key dict; its identity is lost
+                # (sound for exception flow, imprecise for contents)
+                self.ghost['imprecise_defaultdict'] = True
+                return self.call(v.default, [], {})
             self.raise_(KeyError, k)
         if isinstance(v, VList):
             if isinstance(k, int):
@@ -892,14 +1030,14 @@ class Interp(object):
             idx = z3.If(kt < 0, v.len + kt, kt) if not isinstance(k, int) or k < 0 else kt
             if self.ex.branch(z3.Or(idx < 0, idx >= v.len)):
                 self.raise_(IndexError)
-            return from_term(z3.Select(v.arr, idx), v.ety)
+            return self.value_of_term(z3.Select(v.arr, idx), v.ety)
         if isinstance(v, SMap):
             kt = to_term(k, v.kty)
             if v.default is not None:
                 return self.smap_default_get(v, kt)
             if not self.ex.branch(z3.Select(v.dom, kt)):
                 self.raise_(KeyError, k)
-            return from_term(z3.Select(v.val, kt), v.vty)
+            return self.value_of_term(z3.Select(v.val, kt), v.vty)
         if isinstance(v, _NestedView):
             return v.get(self, k)
         if isinstance(v, Native):
@@ -929,8 +1067,14 @@ class Interp(object):
     def setitem(self, v, k, val, node=None):
         if isinstance(v, VDict):
             if not is_concrete(k):
-                self.undecided('store with symbolic key into concrete dict', node)
+                # kept as an association list; only later lookups see it
+                if not hasattr(v, 'sym_items') or v.sym_items is None:
+                    v.sym_items = []
+                v.sym_items.append((k, val))
+                return
             v.items[k] = val
+            if getattr(v, 'present', None):
+                v.present.pop(k, None)
             return
         if isinstance(v, VList):
             if isinstance(k, int):
@@ -939,11 +1083,14 @@ class Interp(object):
             self.undecided('store at symbolic list index', node)
         if isinstance(v, SMap):
             kt = to_term(k, v.kty)
-            v.val = z3.Store(v.val, kt, to_term(val, v.vty))
+            v.val = z3.Store(v.val, kt, self.term_of_value(val, v.vty))
             v.dom = z3.Store(v.dom, kt, z3.BoolVal(True))
             return
         if isinstance(v, _NestedView):
             v.set(self, k, val)
+            return
+        if isinstance(v, _ReplayColl):
+            v.store(self, k, val)
             return
         if isinstance(v, Native):
             return v.setitem(self, k, val)
@@ -1006,6 +1153,19 @@ class Interp(object):
             items = v.items if isinstance(v, VList) else v
             r = items[lo:hi]
             return VList(r) if isinstance(v, VList) else r
+        if isinstance(v, SList) and lo is not None:
+            def clamp(x):
+                t = to_term(x, 'int')
+                return z3.If(t < 0, z3.If(v.len + t < 0, 0, v.len + t),
+                             z3.If(t > v.len, v.len, t))
+            start = clamp(lo)
+            stop = clamp(hi) if hi is not None else v.len
+            name = self.ex.fresh_name('slice')
+            n = z3.Int(name + '.len')
+            self.ex.assume(n == z3.If(stop > start, stop - start, 0))
+            q = z3.Int('q!' + name)
+            arr = z3.Lambda([q], z3.Select(v.arr, q + start))
+            return SList(n, arr, v.ety, name)
         if isinstance(v, SList) and lo is None and hi is not None:
             h = to_term(hi, 'int')
             # python: negative hi counts from the end; clamp to [0, len]
@@ -1050,6 +1210,8 @@ class Interp(object):
         if isinstance(v, VSet):
             return sorted(v.items, key=repr)
         if isinstance(v, VDict):
+            if getattr(v, 'sym_items', None):
+                self.undecided('iteration over a dict with symbolic keys', node)
             return list(self.resolve_presence(v).keys())
         if isinstance(v, str):
             return list(v)
@@ -1105,7 +1267,7 @@ class Interp(object):
                 return self.lift(raw)
             self.raise_(AttributeError, name)
         if isinstance(v, (VList, VDict, VSet, SList, SSet, SMap, _NestedView,
-                          _View)):
+                          _View, _ReplayColl)):
             return BoundMethod(v, _ContainerMethod(name))
         if isinstance(v, (str, Sym)) and (isinstance(v, str) or v.ty == 'str'):
             return BoundMethod(v, _StrMethod(name))
@@ -1232,6 +1394,10 @@ class Interp(object):
                 return b(self, args, kwargs, node)
             return self.real_call(fv, args, kwargs, node)
         if isinstance(fv, Opaque):
+            if fv.what.startswith('havocked local'):
+                # method of a local container whose contents were havocked by
+                # a loop: no effect outside the local, result unknown
+                return Opaque(fv.what + '()')
             return self.default_contract(fv.what, args, kwargs)
         self.undecided('call of %r' % (fv,), node)
 
@@ -1438,6 +1604,10 @@ class Interp(object):
         if isinstance(cur, VList) and isinstance(op, ast.Add):
             cur.items.extend(self.iter_concrete(val, node))
             return cur
+        if isinstance(cur, SList) and isinstance(op, ast.Add) and \
+                isinstance(val, (SList, VList)):
+            _ContainerMethod('extend').call(self, cur, [val], {}, node)
+            return cur
         return self.binop(op, cur, val, node)
 
     def assign(self, target, v, frame):
@@ -1461,6 +1631,11 @@ class Interp(object):
             v = from_term(v.t, v.ty)
         if isinstance(v, Native) and hasattr(v, 'unpack'):
             return v.unpack(self, n)
+        if isinstance(v, SList):
+            if not self.ex.branch(v.len == n):
+                self.raise_(ValueError, 'unpack')
+            return [from_term(z3.Select(v.arr, z3.IntVal(k)), v.ety)
+                    for k in range(n)]
         items = self.iter_concrete(v, node)
         if len(items) != n:
             self.raise_(ValueError, 'unpack')
@@ -1492,10 +1667,133 @@ class Interp(object):
         raise _Continue()
 
     def exec_If(self, node, frame):
-        if self.truth(self.eval(node.test, frame)):
+        tv = self.eval(node.test, frame)
+        cond = self.truth_term(tv)
+        if not isinstance(cond, bool) and not node.orelse and \
+                self.ex.qdepth == 0 and self.registry.get('if_conversion', True):
+            c = z3.simplify(cond)
+            if not z3.is_true(c) and not z3.is_false(c):
+                if self.try_if_conversion(node, frame, c):
+                    return
+        if self.ex.branch(ops.z3bool(cond)) if not isinstance(cond, bool) else cond:
             self.exec_block(node.body, frame)
         else:
             self.exec_block(node.orelse, frame)
+
+    def try_if_conversion(self, node, frame, cond):
+        """`if c: <pure assignments>` without else: execute the body once
+        without forking and merge its effects under c.  Only local names and
+        entries of local dicts may be written; anything else (events, heap
+        writes, calls that branch or raise) cancels the attempt."""
+        # cheap syntactic filter
+        for st in node.body:
+            if not isinstance(st, (ast.Assign, ast.AugAssign, ast.If)):
+                return False
+        # both outcomes must be feasible, otherwise plain execution is exact
+        if not (self.ex._check(cond) and self.ex._check(z3.Not(cond))):
+            return False
+        snap_locals = {}
+        f = frame
+        while f is not None:
+            snap_locals[id(f)] = (f, dict(f.locals))
+            f = f.parent
+        dict_snaps = {}
+        for (fr, loc) in snap_locals.values():
+            for nm, v in loc.items():
+                if type(v).__name__ in ('VDict', 'JsonObj') and id(v) not in dict_snaps:
+                    dict_snaps[id(v)] = (v, dict(v.items),
+                                         dict(getattr(v, 'present', None) or {}),
+                                         hasattr(v, 'present'))
+        heap, heap_none, meta = dict(self.heap), dict(self.heap_none), dict(self.meta)
+        n_events, n_pc, n_hyps = len(self.events), len(self.ex.pc), len(self.ex.hyps)
+        n_trace = len(self.ex.trace)
+        written = set(self.written_fields)
+        db_writes = len(self.db.writes) if self.db is not None else 0
+        next_ref = self.next_ref
+
+        def rollback():
+            for (fr, loc) in snap_locals.values():
+                fr.locals.clear()
+                fr.locals.update(loc)
+            for (v, items, pres, had) in dict_snaps.values():
+                v.items.clear()
+                v.items.update(items)
+                if had:
+                    v.present = dict(pres)
+            self.heap, self.heap_none, self.meta = heap, heap_none, meta
+            del self.events[n_events:]
+            self.written_fields = written
+            self.next_ref = next_ref
+
+        ok = True
+        self.ex.qdepth += 1
+        self.qguards.append([])
+        self.ex.push_assumption(cond)
+        self.ex.trial += 1
+        try:
+            self.exec_block(node.body, frame)
+        except (Undecided, PyRaise, _Return, _Break, _Continue, PathEnd,
+                Infeasible):
+            ok = False
+        finally:
+            self.ex.trial -= 1
+            self.ex.pop_assumption()
+            guards = self.qguards.pop()
+            self.ex.qdepth -= 1
+        if ok and (guards or len(self.events) != n_events or
+                   len(self.ex.pc) != n_pc or len(self.ex.hyps) != n_hyps or
+                   len(self.ex.trace) != n_trace or
+                   self.written_fields != written or self.next_ref != next_ref or
+                   (self.db is not None and len(self.db.writes) != db_writes) or
+                   any(self.heap.get(k) is not v for k, v in heap.items()) or
+                   len(self.heap) != len(heap) or len(self.meta) != len(meta)):
+            ok = False
+        if not ok:
+            rollback()
+            return False
+        # merge locals
+        merged = []
+        try:
+            for (fr, loc) in snap_locals.values():
+                for nm, new in list(fr.locals.items()):
+                    old = loc.get(nm, _MISSING)
+                    if new is old:
+                        continue
+                    if old is _MISSING:
+                        # bound only under the condition: a later read when the
+                        # condition is false would be an error or a stale value
+                        merged.append((fr, nm, Opaque(
+                            'name %s bound only under a condition' % nm)))
+                        continue
+                    try:
+                        merged.append((fr, nm, self.merge(cond, new, old, node)))
+                    except Undecided:
+                        if isinstance(old, Opaque) and 'bound only under' in old.what:
+                            merged.append((fr, nm, old))
+                        else:
+                            raise
+            for (v, items, pres, had) in dict_snaps.values():
+                for k, new in list(v.items.items()):
+                    if k in items and items[k] is new:
+                        continue
+                    if k in items:
+                        oldp = pres.get(k, True)
+                        if oldp is not True:
+                            raise Undecided('conditional overwrite of optional key')
+                        v.items[k] = self.merge(cond, new, items[k], node)
+                    else:
+                        if not hasattr(v, 'present') or v.present is None:
+                            v.present = {}
+                        v.present[k] = cond
+                for k in items:
+                    if k not in v.items:
+                        raise Undecided('conditional delete')
+        except Undecided:
+            rollback()
+            return False
+        for fr, nm, val in merged:
+            fr.locals[nm] = val
+        return True
 
     def exec_Assert(self, node, frame):
         if not self.truth(self.eval(node.test, frame)):
@@ -1653,8 +1951,14 @@ class Interp(object):
         Without a LoopSpec the invariant is True.
         """
         spec = self.registry.get('loops', {}).get((frame.qualname, ordinal))
+        auto = False
         if spec is None:
-            spec = LoopSpec(name='%s#%d' % (frame.qualname, ordinal))
+            auto = True
+            learnt = AUTO_FRAMES.get((frame.qualname, ordinal), (set(), set()))
+            spec = LoopSpec(name='%s#%d' % (frame.qualname, ordinal),
+                            modifies_db=tuple(sorted(learnt[0])),
+                            modifies_fields=tuple(sorted(learnt[1])))
+        self._loop_key = (frame.qualname, ordinal, auto)
         name = spec.name or '%s#%d' % (frame.qualname, ordinal)
         seq = self.loop_sequence(it, name)
         n = seq.len
@@ -1683,11 +1987,25 @@ class Interp(object):
         pre_written = set(self.written_fields)
         # havoc
         havocked = set()
+        replay_colls = []
         for nm in sorted((bound | mutated | set(spec.extra_havoc)) - set(spec.keep)):
             if nm in target_names:
                 continue
             holder = _find_holder(frame, nm)
             if holder is None:
+                continue
+            cur = holder.locals[nm]
+            if isinstance(cur, (VList, VDict)) and not cur.items and \
+                    not getattr(cur, 'present', None) and nm in mutated and \
+                    getattr(cur, 'default', None) is None and \
+                    _stores_unconditionally(node, nm) and \
+                    (frame.qualname, nm) not in hints and \
+                    not isinstance(cur, type(None)):
+                rc = _ReplayColl('dict' if isinstance(cur, VDict) else 'list',
+                                 node, holder, nm, seq, name)
+                holder.locals[nm] = rc
+                replay_colls.append(rc)
+                havocked.add(nm)
                 continue
             try:
                 holder.locals[nm] = self.havoc_value(holder.locals[nm], nm)
@@ -1706,6 +2024,9 @@ class Interp(object):
             self.db.havoc(spec.modifies_db)
         db_writes0 = len(self.db.writes) if self.db is not None else 0
         self._loop_db_mark = (db_writes0, spec.modifies_db)
+        for rc in replay_colls:
+            rc.snapshot = dict(rc.holder.locals)
+            rc.frame = frame
         mode = self.ex.choose(2, tag=name)
         i = z3.Int(self.ex.fresh_name('i.' + name.split('.')[-1]))
         if mode == 0:
@@ -1727,6 +2048,7 @@ class Interp(object):
             for f in spec.lemmas(self, frame, i, seq):
                 self.ex.hyp(f)
         self.written_fields = set()
+        self._loop_alloc_mark = self.next_ref
         self.assign(node.target, seq.element(self, i), frame)
         before = dict((nm, _find_holder(frame, nm).locals.get(nm))
                       for nm in spec.keep if _find_holder(frame, nm))
@@ -1752,6 +2074,13 @@ class Interp(object):
             mark, allowed = self._loop_db_mark
             for w in self.db.writes[mark:]:
                 if w[0] not in allowed:
+                    q, o, auto = self._loop_key
+                    if auto:
+                        fr = AUTO_FRAMES.setdefault((q, o), (set(), set()))
+                        fr[0].add(w[0])
+                        if w[0] == 'allocations':
+                            fr[0].add('aggregates')
+                        raise Restart()
                     raise Undecided('loop %s writes table %s not in its frame'
                                     % (name, w[0]))
         declared = set((m[0], m[1]) for m in spec.modifies_fields)
@@ -1759,9 +2088,15 @@ class Interp(object):
         # fields of objects allocated inside the body are fresh: ignore
         extra = set(e for e in extra if e not in self._fresh_only_fields)
         if extra:
+            q, o, auto = self._loop_key
+            if auto:
+                fr = AUTO_FRAMES.setdefault((q, o), (set(), set()))
+                fr[1].update(extra)
+                raise Restart()
             raise Undecided('loop %s writes heap fields %s not in its frame'
                             % (name, sorted(extra)))
         self.written_fields |= pre_written
+        self._loop_alloc_mark = 1 << 62
 
     _fresh_only_fields = frozenset()
 
@@ -1859,8 +2194,8 @@ class Interp(object):
         """View any symbolic collection as an enumeration a_0 .. a_{n-1}
         (A-order: arbitrary but fixed, without repetition for sets/dicts)."""
         if isinstance(it, SList):
-            return _Seq(it.len, lambda I, i: from_term(z3.Select(it.arr, i), it.ety),
-                        it)
+            return _Seq(it.len, lambda I, i: I.value_of_term(
+                z3.Select(it.arr, i), it.ety), it)
         if isinstance(it, SSet):
             return self._enum(it.arr, it.ety, name, it)
         if isinstance(it, SMap):
@@ -1911,6 +2246,9 @@ class Interp(object):
             if len(gens) != 1:
                 self.undecided('nested comprehension over symbolic collection',
                                node)
+            if isinstance(first, Native) and hasattr(first, 'sequence') and \
+                    not gens[0].ifs and kind in ('list', 'gen', 'dict'):
+                return _LazyComp(kind, node, frame, first.sequence(self, 'comp'))
             return self.symbolic_comprehension(node, frame, inner, first, kind)
         out = []
 
@@ -1980,7 +2318,13 @@ class Interp(object):
             gd = z_and(*[x for x in guards])
             self.ex.hyp(ops.forall([q], z3.Implies(in_range, ops.z3bool(gd))))
         if kind == 'dict':
-            kty, vty = ty_of(kv), ty_of(vv)
+            try:
+                kty, vty = ty_of(kv), ty_of(vv)
+            except Undecided:
+                # structured (non-term) values: the result is only good for
+                # being passed on (e.g. into a JSON body)
+                return Opaque('havocked local (comprehension of structured '
+                              'values)')
             m = self.fresh_map(name, kty, vty)
             kt, vt = to_term(kv, kty), to_term(vv, vty)
             x = z3.Const('x!' + name, sort_of(kty))
@@ -1998,7 +2342,11 @@ class Interp(object):
                 patterns=[z3.Select(m.dom, x)]))
             m.ghost_w = w
             return m
-        ety = ty_of(ev)
+        try:
+            ety = ty_of(ev)
+        except Undecided:
+            return Opaque('havocked local (comprehension of structured '
+                          'values)')
         et = to_term(ev, ety)
         if kind == 'set':
             s = self.fresh_set(name, ety)
@@ -2068,6 +2416,9 @@ class Interp(object):
 # ==========================================================================
 # helper classes
 
+_MISSING = object()
+
+
 class _Seq(object):
     """Enumeration a_0 .. a_{n-1} of a symbolic collection."""
 
@@ -2116,6 +2467,178 @@ class _View(object):
         s = _Seq(base.len, elem, d)
         s.at, s.idx = base.at, base.idx
         return s
+
+
+class _ReplayColl(Native):
+    """A list / dict built by a loop over a symbolic collection, one entry per
+    iteration (`out.append(f(x))` / `out[k(x)] = f(x)`).  Its i-th entry is
+    obtained by re-running the loop body on the i-th element; the body must
+    be pure (no contract call, no event, no heap write)."""
+
+    def __init__(self, kind, loop_node, holder, name, seq, loop_name):
+        self.kind = kind
+        self.loop_node = loop_node
+        self.holder = holder
+        self.name = name
+        self.seq = seq
+        self.loop_name = loop_name
+        self.capture = None
+        self.snapshot = None
+        self.frame = None
+        self.unconditional = _stores_unconditionally(loop_node, name)
+
+    def getattr(self, I, name):
+        return BoundMethod(self, _ContainerMethod(name))
+
+    def store(self, I, k, v):
+        if self.capture is not None:
+            self.capture.append((k, v))
+
+    def _append(self, I, v):
+        if self.capture is not None:
+            self.capture.append((None, v))
+
+    def entry(self, I, i):
+        if not self.unconditional:
+            raise Undecided('collection %s is filled conditionally by loop %s'
+                            % (self.name, self.loop_name))
+        fr = Frame(dict(self.snapshot), self.frame.parent, self.frame.globals,
+                   self.frame.qualname, self.frame.module)
+        fr.locals[self.name] = self
+        n_events = len(I.events)
+        written = set(I.written_fields)
+        saved = self.capture
+        self.capture = []
+        try:
+            I.assign(self.loop_node.target, self.seq.element(I, i), fr)
+            try:
+                I.exec_block(self.loop_node.body, fr)
+            except _Continue:
+                pass
+            got = self.capture
+        finally:
+            self.capture = saved
+        if len(I.events) != n_events:
+            raise Undecided('replayed loop body of %s is not pure (events)'
+                            % self.loop_name)
+        if len(got) != 1:
+            raise Undecided('replayed loop body of %s stored %d entries'
+                            % (self.loop_name, len(got)))
+        return got[0]
+
+    def sequence(self, I, name, what='default'):
+        coll = self
+
+        def elem(I_, i):
+            k, v = coll.entry(I_, i)
+            if coll.kind == 'list':
+                return v
+            if what == 'items':
+                return (k, v)
+            if what == 'values':
+                return v
+            return k
+        s = _Seq(self.seq.len, elem, self)
+        return s
+
+    def truth(self, I):
+        return self.seq.len > 0
+
+    def length(self, I):
+        return from_term(self.seq.len, 'int')
+
+    def iter_value(self, I):
+        return self
+
+
+class _LazyComp(Native):
+    """[f(x) for x in S] / {k(x): v(x) for x in S} over a sequence whose
+    elements are structured (not z3-typed): evaluated per element on demand."""
+
+    def __init__(self, kind, node, frame, seq):
+        self.kind = 'dict' if kind == 'dict' else 'list'
+        self.node = node
+        self.frame = frame
+        self.seq = seq
+        self.snapshot = dict(frame.locals)
+
+    def getattr(self, I, name):
+        return BoundMethod(self, _ContainerMethod(name))
+
+    def entry(self, I, i):
+        fr = Frame(dict(self.snapshot), self.frame.parent, self.frame.globals,
+                   self.frame.qualname, self.frame.module)
+        g = self.node.generators[0]
+        I.assign(g.target, self.seq.element(I, i), fr)
+        if self.kind == 'dict':
+            return (I.eval(self.node.key, fr), I.eval(self.node.value, fr))
+        return (None, I.eval(self.node.elt, fr))
+
+    def sequence(self, I, name, what='default'):
+        coll = self
+
+        def elem(I_, i):
+            k, v = coll.entry(I_, i)
+            if coll.kind == 'list' or what == 'values':
+                return v
+            if what == 'items':
+                return (k, v)
+            return k
+        return _Seq(self.seq.len, elem, self)
+
+    def truth(self, I):
+        return self.seq.len > 0
+
+    def length(self, I):
+        return from_term(self.seq.len, 'int')
+
+    def iter_value(self, I):
+        return self
+
+
+class _ReplayView(Native):
+    def __init__(self, coll, what):
+        self.coll = coll
+        self.what = what
+
+    def sequence(self, I, name):
+        return self.coll.sequence(I, name, self.what)
+
+    def iter_value(self, I):
+        return self
+
+    def truth(self, I):
+        return self.coll.truth(I)
+
+
+def _stores_unconditionally(loop_node, name):
+    """The loop body stores into `name` exactly once, at its top level."""
+    uses = sum(1 for st in loop_node.body for sub in ast.walk(st)
+               if isinstance(sub, ast.Name) and sub.id == name)
+    if uses != 1:
+        return False
+    n = 0
+    for st in loop_node.body:
+        if isinstance(st, ast.Assign) and len(st.targets) == 1 and \
+                isinstance(st.targets[0], ast.Subscript) and \
+                isinstance(st.targets[0].value, ast.Name) and \
+                st.targets[0].value.id == name:
+            n += 1
+        elif isinstance(st, ast.Expr) and isinstance(st.value, ast.Call) and \
+                isinstance(st.value.func, ast.Attribute) and \
+                isinstance(st.value.func.value, ast.Name) and \
+                st.value.func.value.id == name and \
+                st.value.func.attr == 'append':
+            n += 1
+        else:
+            for sub in ast.walk(st):
+                if isinstance(sub, (ast.Continue, ast.Break, ast.Return)):
+                    return False
+                if isinstance(sub, ast.Name) and sub.id == name and \
+                        isinstance(sub.ctx, ast.Load) and \
+                        not isinstance(st, (ast.Assign, ast.Expr)):
+                    pass
+    return n == 1
 
 
 class _NestedView(object):
@@ -2181,14 +2704,20 @@ class _ContainerMethod(object):
 
     # dict ----------------------------------------------------------------
     def m_items(self, I, d, a, k, n):
+        if isinstance(d, (_ReplayColl, _LazyComp)):
+            return _ReplayView(d, 'items')
         if isinstance(d, (VDict, SMap)):
             return _View(d, 'items')
         I.undecided('.items() on %r' % (d,), n)
 
     def m_keys(self, I, d, a, k, n):
+        if isinstance(d, (_ReplayColl, _LazyComp)):
+            return _ReplayView(d, 'keys')
         return _View(d, 'keys')
 
     def m_values(self, I, d, a, k, n):
+        if isinstance(d, (_ReplayColl, _LazyComp)):
+            return _ReplayView(d, 'values')
         return _View(d, 'values')
 
     def m_get(self, I, d, a, k, n):
@@ -2284,16 +2813,30 @@ class _ContainerMethod(object):
 
     # list ----------------------------------------------------------------
     def m_append(self, I, l, a, k, n):
+        if isinstance(l, _ReplayColl):
+            l._append(I, a[0])
+            return None
         if isinstance(l, VList):
             l.items.append(a[0])
             return None
         if isinstance(l, SList):
-            l.arr = z3.Store(l.arr, l.len, to_term(a[0], l.ety))
+            l.arr = z3.Store(l.arr, l.len, I.term_of_value(a[0], l.ety))
             l.len = l.len + 1
             return None
         I.undecided('.append on %r' % (l,), n)
 
     def m_extend(self, I, l, a, k, n):
+        if isinstance(l, SList) and isinstance(a[0], SList):
+            o = a[0]
+            q = z3.Int('q!ext')
+            l.arr = z3.Lambda([q], z3.If(q < l.len, z3.Select(l.arr, q),
+                                         z3.Select(o.arr, q - l.len)))
+            l.len = l.len + o.len
+            return None
+        if isinstance(l, SList) and isinstance(a[0], (VList, tuple)):
+            for x in (a[0].items if isinstance(a[0], VList) else a[0]):
+                self.m_append(I, l, [x], {}, n)
+            return None
         if isinstance(l, VList):
             l.items.extend(I.iter_concrete(a[0], n))
             return None
